@@ -427,7 +427,10 @@ impl Sender {
 
             let permit = self.tx.reserve().await?;
 
-            let max_ports = self.chunk_size.min(credits.available() as usize) / size_of::<u32>();
+            // A port request takes up to two u32 in the message (port number and id), but
+            // the remote endpoint only accepts messages of its chunk size plus header.
+            let max_ports_per_msg = (self.chunk_size / (2 * size_of::<u32>())).max(1);
+            let max_ports = max_ports_per_msg.min(credits.available() as usize / size_of::<u32>());
             let next =
                 if ports_response.len() > max_ports { ports_response.split_off(max_ports) } else { Vec::new() };
 
